@@ -152,6 +152,11 @@ def dictInsertAll : List Val → List Val → List Val → List Val → List Val
     dictInsertAll r.1 r.2 ks vs
   | ks0, vs0, _, _ => (ks0, vs0)
 
+/-- `if v is not None: setattr(self, field_name, v)` -/
+def setAttrNN (S : Schema) (fs : List FieldD) (st : MState) (i : Nat) : Val → MState
+  | .none => st
+  | w => setAttr S fs st i w
+
 mutual
 /-- the loop of `m.from_pydict(d)` over the keys of `d`, on the state of an instance of class `c` -/
 def fromPyKeys (S : Schema) (c : Nat) : MState → List JKey → List PVal → R MState
@@ -177,29 +182,31 @@ def fromPyField (S : Schema) (fs : List FieldD) (st : MState) (i : Nat) (f : Fie
         else (match f.kind with
          | .user c' => (fromPyItems S c' items).bind fun ys => .ok (setAttr S fs st1 i (.list (xs ++ ys)))
          | _ => if items.isEmpty then .ok (setAttr S fs st1 i (.list xs)) else .error .type)
-      | .ts _ => (unRaw (.arr items)).bind fun w => .ok (setAttr S fs st1 i w)
-      | .dur _ => (unRaw (.arr items)).bind fun w => .ok (setAttr S fs st1 i w)
+      | .ts _ => (unRaw (.arr items)).bind fun w => .ok (setAttrNN S fs st1 i w)
+      | .dur _ => (unRaw (.arr items)).bind fun w => .ok (setAttrNN S fs st1 i w)
       | _ =>
-        if f.wraps.isSome then (unRaw (.arr items)).bind fun w => .ok (setAttr S fs st1 i w)
+        if f.wraps.isSome then (unRaw (.arr items)).bind fun w => .ok (setAttrNN S fs st1 i w)
         else .error .attr                                  -- `None.from_pydict`; a Message: `for key in <list>` not modelled
     else if f.ty == .map && f.mapV == .message then
-      (getAttr S fs st i).bind fun _ => .error .type       -- `value[key][k]` with a str key on a list
-    else (unRaw (.arr items)).bind fun w => .ok (setAttr S fs st i w)
+      -- `for k in <list>: … value[key][k]`: a list subscripted by one of its items (TypeError), unless it is empty
+      (getAttr S fs st i).bind fun (v, st1) =>
+        if items.isEmpty then .ok (setAttrNN S fs st1 i v) else .error .type
+    else (unRaw (.arr items)).bind fun w => .ok (setAttrNN S fs st i w)
   | .obj ks ps =>
     if f.ty == .message then
       (getAttr S fs st i).bind fun (v, st1) =>
       match v with
       | .list _ => .error .notImpl                         -- `for item in <dict>`: the keys; not modelled
-      | .ts _ => (unRaw (.obj ks ps)).bind fun w => .ok (setAttr S fs st1 i w)
-      | .dur _ => (unRaw (.obj ks ps)).bind fun w => .ok (setAttr S fs st1 i w)
+      | .ts _ => (unRaw (.obj ks ps)).bind fun w => .ok (setAttrNN S fs st1 i w)
+      | .dur _ => (unRaw (.obj ks ps)).bind fun w => .ok (setAttrNN S fs st1 i w)
       | .msg c' sl _ unk cur =>
-        if f.wraps.isSome then (unRaw (.obj ks ps)).bind fun w => .ok (setAttr S fs st1 i w)
+        if f.wraps.isSome then (unRaw (.obj ks ps)).bind fun w => .ok (setAttrNN S fs st1 i w)
         else
           -- `v.from_pydict(value[key])`: in place, on the very object `getattr` returned
           (fromPyKeys S c' { slots := sl, onWire := true, unknown := unk, cur := cur } ks ps).bind fun st' =>
             .ok (setAttr S fs st1 i (st'.toVal c'))
       | _ =>
-        if f.wraps.isSome then (unRaw (.obj ks ps)).bind fun w => .ok (setAttr S fs st1 i w)
+        if f.wraps.isSome then (unRaw (.obj ks ps)).bind fun w => .ok (setAttrNN S fs st1 i w)
         else .error .attr                                  -- `None.from_pydict`
     else if f.ty == .map && f.mapV == .message then
       (getAttr S fs st i).bind fun (v, st1) =>
@@ -211,20 +218,20 @@ def fromPyField (S : Schema) (fs : List FieldD) (st : MState) (i : Nat) (f : Fie
              .ok (setAttr S fs st1 i (.dict (dictInsertAll ks0 vs0 (ks.map keyV) ys).1 (dictInsertAll ks0 vs0 (ks.map keyV) ys).2))
          | _ => if ps.isEmpty then .ok (setAttr S fs st1 i (.dict ks0 vs0)) else .error .type)   -- `datetime()`
       | _ => .error .type
-    else (unRaw (.obj ks ps)).bind fun w => .ok (setAttr S fs st i w)
+    else (unRaw (.obj ks ps)).bind fun w => .ok (setAttrNN S fs st i w)
   | p =>
     if f.ty == .message then
       (getAttr S fs st i).bind fun (v, st1) =>
       match v with
       | .list _ => .error .type                            -- `for item in <leaf>`
-      | .ts _ => (unRaw p).bind fun w => .ok (setAttr S fs st1 i w)
-      | .dur _ => (unRaw p).bind fun w => .ok (setAttr S fs st1 i w)
+      | .ts _ => (unRaw p).bind fun w => .ok (setAttrNN S fs st1 i w)
+      | .dur _ => (unRaw p).bind fun w => .ok (setAttrNN S fs st1 i w)
       | _ =>
-        if f.wraps.isSome then (unRaw p).bind fun w => .ok (setAttr S fs st1 i w)
+        if f.wraps.isSome then (unRaw p).bind fun w => .ok (setAttrNN S fs st1 i w)
         else .error .attr                                  -- `None.from_pydict`; `for key in <leaf>`
     else if f.ty == .map && f.mapV == .message then
       (getAttr S fs st i).bind fun _ => .error .type       -- `for k in <leaf>`
-    else (unRaw p).bind fun w => .ok (setAttr S fs st i w)
+    else (unRaw p).bind fun w => .ok (setAttrNN S fs st i w)
 
 /-- `cls().from_pydict(item)` for each item: a fresh instance of class `c` each -/
 def fromPyItems (S : Schema) (c : Nat) : List PVal → R (List Val)
@@ -248,6 +255,17 @@ def fromPyDictI (S : Schema) (m : Val) (p : PVal) : R Val :=
 
 /-- `Cls().from_pydict(d)` -/
 def fromPyDict (S : Schema) (c : Nat) (p : PVal) : R Val := fromPyDictI S (fresh S c) p
+
+/-! ### to_json / from_json -/
+
+/-- `json.loads(m.to_json(indent, include_default_values, casing))`: a JSON text is identified with what
+    `json.loads` makes of it (`jsonText`, BpModel/Json.lean: `json.loads(json.dumps(·))`; `indent` only
+    changes the layout); `none` = `json.dumps` raises TypeError (an object that is not JSON serialisable) -/
+def toJson (S : Schema) (E : Enums) (cs : KeyCase) (incl : Bool) (m : Val) : Option JVal :=
+  jsonText (toDict S E cs incl m)
+
+/-- `m.from_json(text)` for the text whose `json.loads` is `j`: the instance form of `from_dict` -/
+def fromJson (S : Schema) (E : Enums) (m : Val) (j : JVal) : R Val := fromDictI S E m j
 
 /-! ### decidable guards of the round-trip theorem (evaluated by the driver on harness inputs) -/
 
